@@ -196,7 +196,12 @@ def process(ctx: Ctx, cases: list[dict]) -> None:
             ctx.case(c, nontrivial, (probe[0],) + tuple(sorted({PREFIX_OPS[i][0] for i in c["prefix"]})))
             key = c["probe"]
             if key not in base_cache:
-                base_cache[key] = run_history(-1, "proj", [], probe)
+                try:
+                    base_cache[key] = run_history(-1, "proj", [], probe)
+                except Exception as e:  # noqa: BLE001
+                    # the probe on a fresh counter in the project folder fails: only what this PROCESS did before can be the reason
+                    ctx.violation("operation raises on a fresh state after earlier operations of the same process", c, repr(e), "a result", replay=c)
+                    continue
             try:
                 got = run_history(c["start"], c["cwd"], prefix, probe)
             except Exception as e:  # noqa: BLE001
